@@ -5,7 +5,9 @@ import os
 VERIF = os.path.dirname(os.path.dirname(os.path.abspath(__file__)))
 
 TB = ("TLC 1.8 and the CommunityModules; the harness's projection of real objects through the public parent/children "
-      "attributes, its label table keyed by id(), and JSON equality; bounded model sizes (see evidence.coverage.configs)")
+      "attributes, its label table keyed by id(), JSON equality and the small trusted renderers (segment tokens -> text); "
+      "bounded model sizes (see evidence.coverage.configs); hooks observe and raise but do not mutate the tree; "
+      "CPython's json / pickle / copy / re are taken as given")
 
 CLAIMS = {
     "C01": ("spec NodeOps (small-step interpreter of the mutators with hook-fault plans) + TLC invariants; every big-step transition replayed into 6 class families x both assertion settings; observations judged by TLC (TraceOps)",
@@ -60,7 +62,9 @@ def main():
             "engine": "tlc+replay",
             "level_claimed": {"category": "model_checking", "text": text, "design_ref": ref},
             "level_note": TB,
-            "technique": "explicit TLA+ specification model-checked with TLC; conformance by replaying TLC's transitions into the real code and by TLC judging observations: " + tech,
+            "technique": "explicit TLA+ specification model-checked with TLC; conformance in both directions: every TLC transition replayed into the real code, "
+                         "and executions recorded from the real code (the repository's own test-suite under a tracer, seeded random histories on live objects) "
+                         "validated by TLC, which also judges every differing observation: " + tech,
         })
     m = {
         "version": 1,
